@@ -216,13 +216,20 @@ type profile struct {
 	pPlanned    int   // % of messages chosen to be valid for the state the history has reached (deep histories)
 	pInitLimit  int   // % of histories that begin with the authority raising the passthrough limit
 	pGasHook    int   // % of Hyperlane forwardings that go through a gas paymaster of the chain
+	pExtPanic   int   // % of orbiter packets during which an external module panics
 }
 
 // share of Hyperlane forwardings through a gas paymaster, per profile (8 where not listed)
 var gasHookShare = map[string]int{"C02": 20, "C05": 40, "C11": 30, "C01": 12, "C03": 12, "C14": 12}
 
+var extPanicShare = map[string]int{"C03": 12, "C01": 7, "C14": 6, "mix": 4, "C02": 3}
+
 func init() {
 	for k, p := range profiles {
+		if p.pExtPanic == 0 {
+			p.pExtPanic = extPanicShare[k]
+			profiles[k] = p
+		}
 		if p.pGasHook == 0 {
 			p.pGasHook = 8
 			if v, ok := gasHookShare[k]; ok {
